@@ -170,6 +170,7 @@ def cmd_check(a):
     n_viol = 0
     lines = []
     reported = set()
+    known_printed = set()
     for v in shrunk:
         key = (v["kind"], v.get("site"), repr(sorted((v.get("features") or {}).items())))
         if key in reported:
@@ -194,7 +195,10 @@ def cmd_check(a):
                             cwd=VERIF).returncode
         confirmed = rc == 1
         if k:
-            lines.append(f"KNOWN-FINDING: property={prop.ID} {k['what']} [kind={v['kind']} replay={path}]")
+            kid = known["findings"].index(k)
+            if kid not in known_printed:
+                known_printed.add(kid)
+                lines.append(f"KNOWN-FINDING: property={prop.ID} {k['what']} [kind={v['kind']} replay={path}]")
         elif confirmed:
             n_viol += 1
             lines.append(f"VIOLATION property={prop.ID} replay={path}")
